@@ -263,6 +263,28 @@ return ok
 """
             out.append(mk_case(f"c02.equal_operands.{op}.{op2}", [("t1", "int"), ("s1", "int"), ("x", U), ("y", "int")], body,
                                pre=[f"BU({L}, t1, s1, x, y)"]))
+    # the `null` *callable* (Value.null(), Key.null(), Index.null(), {'value.null': None}) is an ordinary always-true leaf, not
+    # the NullCondition identity: true | x is all-true, true ^ x is not-x
+    for op in OPS:
+        for side in ("left", "right"):
+            for kind, N, A, doc in (("value", "V('null')", "V('greater_than', t1)", "[x, y]"), ("key", "K('null')", "V('greater_than', t1)", "{'a': x, 'b': y}"),
+                                    ("index", "IX('null')", "IX('less_than', t1)", "[x, y, 0]")):
+                if ctx.quick and kind != "value" and op != "xor":
+                    continue
+                T = f"({op!r}, {N}, {A})" if side == "left" else f"({op!r}, {A}, {N})"
+                T2 = f"({op!r}, {N}, ('and', {A}, V('equal_to', s1)))" if side == "left" else f"({op!r}, ('or', {A}, V('equal_to', s1)), {N})"
+                a_spec = "{'value.greater_than': t1}" if kind != "index" else "{'index.less_than': t1}"
+                items = f"[{{'{kind}.null': None}}, {a_spec}]" if side == "left" else f"[{a_spec}, {{'{kind}.null': None}}]"
+                body = f"""
+doc = {doc}
+T, T2 = {T}, {T2}
+ok = same('null callable as an operand', build_cond(T).filter(doc).result, ref_tree(T, doc))
+ok = ok and same('null callable next to a combination', build_cond(T2).filter(doc).result, ref_tree(T2, doc))
+ok = ok and same('spec form', ConditionLike.from_spec({{{op!r}: {items}}}).filter(doc).result, ref_tree(T, doc))
+return ok
+"""
+                out.append(mk_case(f"c02.null_callable.{kind}.{op}.{side}", [("t1", "int"), ("s1", "int"), ("x", U), ("y", "int")], body,
+                                   pre=[f"BU({L}, t1, s1, x, y)"]))
     # key-kind with index-kind must be refused (TypeError), in any nesting
     body = """
 raised = False
